@@ -284,7 +284,11 @@ func runCheck(root, repo, prop, tier, only string, workers int, verbose bool, se
 			path := filepath.Join(root, "replays", prop, fmt.Sprintf("%s-%d.json", h, nrep))
 			rf := ReplayFile{Property: prop, Harness: h, Assert: v.Assert, Msg: v.Msg, Tier: tier, Inputs: v.Inputs}
 			writeJSON(path, rf)
-			out, err := rp.run(path, 180*time.Second)
+			rt := 180 * time.Second
+			if v.Assert == "noblock" || v.Assert == "step-bound" {
+				rt = 20 * time.Second
+			}
+			out, err := rp.run(path, rt)
 			replays++
 			if confirms(out, v.Assert) {
 				fmt.Printf("VIOLATION property=%s replay=%s\n", prop, path)
